@@ -318,9 +318,12 @@ func exitKind(b *ssa.BasicBlock) string {
 // ---------- terms (E7) ----------
 
 type termer struct {
-	depth int
-	seen  map[ssa.Value]bool
+	depth    int
+	seen     map[ssa.Value]bool
+	paramIdx bool // render parameters positionally ($0, $1…) to compare sibling functions
 }
+
+func termP(v ssa.Value) string { return (&termer{seen: map[ssa.Value]bool{}, paramIdx: true}).t(v) }
 
 func constName(c *ssa.Const) string {
 	if c.Value == nil {
@@ -371,6 +374,13 @@ func (tm *termer) t(v ssa.Value) string {
 	case *ssa.Const:
 		return constName(x)
 	case *ssa.Parameter:
+		if tm.paramIdx {
+			for i, p := range x.Parent().Params {
+				if p == x {
+					return fmt.Sprintf("$%d", i)
+				}
+			}
+		}
 		return x.Name()
 	case *ssa.FreeVar:
 		return x.Name()
@@ -456,6 +466,15 @@ func (tm *termer) t(v ssa.Value) string {
 	case *ssa.TypeAssert:
 		return tm.t(x.X) + ".(" + typeShort(x.AssertedType) + ")"
 	case *ssa.Slice:
+		if a, ok := x.X.(*ssa.Alloc); ok && x.Low == nil && x.High == nil {
+			if els := arrayLiteral(a); els != nil {
+				var ps []string
+				for _, e := range els {
+					ps = append(ps, tm.t(e))
+				}
+				return "[" + strings.Join(ps, ", ") + "]"
+			}
+		}
 		s := tm.t(x.X)
 		s = strings.TrimPrefix(s, "&")
 		lo, hi := "", ""
@@ -545,6 +564,7 @@ func singleStore(a *ssa.Alloc) *ssa.Store {
 			}
 		case *ssa.UnOp:
 		case *ssa.DebugRef:
+		case *ssa.Slice:
 		default:
 			return nil
 		}
@@ -721,5 +741,46 @@ func (p *Prog) sortedFuncs() []*ssa.Function {
 		}
 		return fnPos(out[i]) < fnPos(out[j])
 	})
+	return out
+}
+
+
+// arrayLiteral: elements stored into a local array alloc at constant indices (varargs / composite literal), in index order.
+func arrayLiteral(a *ssa.Alloc) []ssa.Value {
+	refs := a.Referrers()
+	if refs == nil {
+		return nil
+	}
+	els := map[int64]ssa.Value{}
+	for _, r := range *refs {
+		switch x := r.(type) {
+		case *ssa.IndexAddr:
+			k, ok := x.Index.(*ssa.Const)
+			if !ok || k.Value == nil {
+				return nil
+			}
+			if rr := x.Referrers(); rr != nil {
+				for _, u := range *rr {
+					if st, ok := u.(*ssa.Store); ok && st.Addr == x {
+						els[k.Int64()] = st.Val
+					}
+				}
+			}
+		case *ssa.Slice, *ssa.DebugRef:
+		default:
+			return nil
+		}
+	}
+	if len(els) == 0 {
+		return nil
+	}
+	out := make([]ssa.Value, len(els))
+	for i := range out {
+		v, ok := els[int64(i)]
+		if !ok {
+			return nil
+		}
+		out[i] = v
+	}
 	return out
 }
